@@ -154,6 +154,8 @@ def run(ctx, w):
     from rules import c02
     c02.relayout_clears_wrap(ctx, w, S, R, "Q4")
     c02.row_units(ctx, w, S, R, "Q6")
+    from rules import c01 as _c01
+    _c01.loop_index(ctx, w, S, _c01.api_reach(w))
     must = w.mustwrite.must(rf)
     for fld, arg in ((S.buf_cols, "arg2"), (S.buf_rows, "arg3")):
         sites = [(pt, WD.strip_names(t)) for f2, pt, p, t in w.assign_sites({rf}, lambda p: p == ("arg1", fld))]
